@@ -70,6 +70,11 @@ CHECKS["C20"] = ("model_checking",
     "A recording/scripted RandomState owns the random source of draw_gmm, multivariate_student_t, gstm, celeux_one, celeux_two: ALL label vectors (K<=3/4, n<=4/5) and ALL n! final permutations (n<=5) are fed as answers; the requests made to the source must carry the documented parameters (sqrt(variance) for d=1, corner means, Celeux tables) and the output must be the documented assembly of the answers (row i is a fresh draw of component y[i], Student-t = loc+sqrt(df/u)z, joint shuffle, linear dependencies). Identical seeds, shapes, label ranges and the rejection menu are checked with the real source; a seeded 6-sigma moment check is a backstop and the arbiter when the request pattern is not recognised.",
     "numpy's samplers are trusted; Celeux tables typed by hand from the documentation.",
     "5/C20")
+CHECKS["C15"] = ("exploration",
+    "bounded-exhaustive enumeration of feature masks, cut-point vectors in all storage orders, temperatures and grid cells on the real Douglas model",
+    "d<=3 with ALL non-empty feature masks (+None) x n_cuts 1..3 x temperatures {10,1,0.1,0.02} x ALL storage orders of the cut-point vectors: masked columns are perturbed (bitwise-equal predictions), leaf count (n_cuts+1)^used, soft-bin and leaf memberships are probability vectors, and at temperature 0.02 two probe points in every grid cell (cell = number of cut points below the value, per feature) must get the same prediction. find_active_points is compared with its definition for ALL cut vectors over a menu (including cuts equal to the feature's min/max) against data of known range.",
+    "Cut points are set on the fitted attribute to enumerate orders; cells narrower than 1.0 are not probed.",
+    "5/C15")
 NOT_APPLICABLE = {}
 
 def main():
